@@ -449,6 +449,38 @@ func genC01(o *Out, rng *rand.Rand, tier string) {
 		nontriv := len(p.Options) > 0
 		o.Emit(rec, cls, w, nontriv)
 	}
+	// packets that are not sent the moment they are built: made now by the library's constructors, encoded at the end of this
+	// run, more than a second later (a retransmission queue, a packet kept as a template) - what is encoded is the value
+	born := time.Now()
+	var later []*dhcpv4.DHCPv4
+	for k := 0; k < 8; k++ {
+		hw := net.HardwareAddr{2, 0, 0, 0, 1, byte(k)}
+		var p *dhcpv4.DHCPv4
+		switch k % 4 {
+		case 0:
+			p, _ = dhcpv4.NewDiscovery(hw)
+		case 1:
+			p, _ = dhcpv4.NewInform(hw, net.IPv4(10, 0, 0, byte(9+k)))
+		case 2:
+			p, _ = dhcpv4.New(dhcpv4.WithMessageType(dhcpv4.MessageTypeRequest), dhcpv4.WithHwAddr(hw))
+		default:
+			offer, _ := dhcpv4.New(dhcpv4.WithMessageType(dhcpv4.MessageTypeOffer), dhcpv4.WithHwAddr(hw), dhcpv4.WithYourIP(net.IPv4(10, 0, 0, 50)),
+				dhcpv4.WithOption(dhcpv4.OptServerIdentifier(net.IPv4(10, 0, 0, 1))))
+			p, _ = dhcpv4.NewRequestFromOffer(offer)
+		}
+		if p != nil {
+			later = append(later, p)
+		}
+	}
+	defer func() {
+		if d := 1200*time.Millisecond - time.Since(born); d > 0 {
+			time.Sleep(d)
+		}
+		for _, p := range later {
+			emit(p, "encoded-later")
+			emit(p, "encoded-later") // ... and once more
+		}
+	}()
 	// every boundary length, alone and next to a neighbour option
 	for _, L := range boundaryLens {
 		for _, code := range []int{1, 82, 254, 120} {
